@@ -142,8 +142,77 @@ def _translate_resolution():
         raise Untranslatable(str(exc))
 
 
+def _translate_dispatch():
+    """the choice of the 1-D resolution class in DataMixin._interpret_data (direct_model.py), fail-closed Python-ast walk:
+    returns the quantifier ('existsb' / 'forallb') and the comparison used on the widths of a data set that has dx."""
+    import ast
+    import os
+    tree = ast.parse(open(os.path.join(common.REPO, "sasmodels", "direct_model.py")).read())
+    fn = None
+    for n in ast.walk(tree):
+        if isinstance(n, ast.FunctionDef) and n.name == "_interpret_data":
+            fn = n
+    if fn is None:
+        raise Untranslatable("_interpret_data not found")
+    cand = [n for n in ast.walk(fn) if isinstance(n, ast.If) and ast.unparse(n.test) == "getattr(data, 'dx', None) is not None"]
+    if len(cand) != 1:
+        raise Untranslatable("%d tests of data.dx" % len(cand))
+    top = cand[0]
+    if len(top.body) != 2 or ast.unparse(top.body[0]) not in ("q, dq = (data.x[index], data.dx[index])", "q, dq = data.x[index], data.dx[index]") or not isinstance(top.body[1], ast.If):
+        raise Untranslatable("the dx branch is not [q, dq = ...; if ...]")
+    inner = top.body[1]
+    if [ast.unparse(b) for b in inner.body] != ["res = resolution.Pinhole1D(q, dq)"] or [ast.unparse(b) for b in inner.orelse] != ["res = resolution.Perfect1D(q)"]:
+        raise Untranslatable("the dx branch does not choose between Pinhole1D(q, dq) and Perfect1D(q)")
+    t = inner.test
+    if not (isinstance(t, ast.Call) and isinstance(t.func, ast.Attribute) and t.func.attr in ("any", "all") and not t.args and isinstance(t.func.value, ast.Compare)
+            and len(t.func.value.ops) == 1 and ast.unparse(t.func.value.left) == "dq" and ast.unparse(t.func.value.comparators[0]) in ("0", "0.0", "0.")):
+        raise Untranslatable("the test on the widths is %s" % ast.unparse(t))
+    quant = {"any": "existsb", "all": "forallb"}[t.func.attr]
+    cmp_ = {ast.Gt: "ltb O (zero O) w", ast.GtE: "leb O (zero O) w", ast.NotEq: "negb (eqb O w (zero O))"}.get(type(t.func.value.ops[0]))
+    if cmp_ is None:
+        raise Untranslatable("comparison %s" % ast.unparse(t.func.value))
+    if len(top.orelse) != 1 or not isinstance(top.orelse[0], ast.If):
+        raise Untranslatable("no slit branch after the dx branch")
+    sl = top.orelse[0]
+    if ast.unparse(sl.test) != "getattr(data, 'dxl', None) is not None or getattr(data, 'dxw', None) is not None":
+        raise Untranslatable("slit test: %s" % ast.unparse(sl.test))
+    if "resolution.Slit1D(" not in ast.unparse(sl.body[0]) or [ast.unparse(b) for b in sl.orelse] != ["res = resolution.Perfect1D(data.x[index])"]:
+        raise Untranslatable("slit / perfect branches")
+    return quant, cmp_
+
+
+def gen_dispatch():
+    import os
+    lines = ["(* GENERATED by harness/c03.py from sasmodels/direct_model.py (DataMixin._interpret_data: which 1-D resolution class a data set gets) *)",
+             "From Coq Require Import List Bool.", "From SM Require Import Base.Num C03.Dispatch.", ""]
+    note = None
+    try:
+        quant, cmp_ = _translate_dispatch()
+    except (Untranslatable, OSError, SyntaxError) as exc:
+        note = "%s: %s" % (type(exc).__name__, exc)
+        quant, cmp_ = "existsb", "ltb O (zero O) w"
+    lines.append("Definition dispatch_translated : bool := %s." % ("true" if note is None else "false"))
+    if note:
+        lines.append("(* not translated: %s *)" % note.replace("*)", "* )"))
+    lines += ["Definition code_dispatch {T : Type} (O : Ops T) (dx : option (list T)) (has_dxl has_dxw : bool) : res_kind :=",
+              "  match dx with",
+              "  | Some dq => if %s (fun w => %s) dq then RPinhole else RPerfect" % (quant, cmp_),
+              "  | None => if has_dxl || has_dxw then RSlit else RPerfect",
+              "  end.", ""]
+    common.write_if_changed(os.path.join(common.THEORIES, "Gen", "C03_dispatch.v"), "\n".join(lines))
+    return note
+
+
+DISPATCH_NOTE = [None]
+
+
 def gen():
-    """Regenerate Gen/C03_code.v from the text of sasmodels/resolution.py."""
+    """Regenerate Gen/C03_code.v from the text of sasmodels/resolution.py and Gen/C03_dispatch.v from direct_model.py."""
+    DISPATCH_NOTE[0] = gen_dispatch()
+    return _gen_code()
+
+
+def _gen_code():
     import os
     from . import nptrans
     head = ["(* GENERATED by harness/c03.py from sasmodels/resolution.py (bin_edges, pinhole_resolution, _q_perp_weights, apply_resolution_matrix) *)",
@@ -194,6 +263,8 @@ def main(run):
     if note and note[0]:
         run.notes.append("resolution.py not translated (%s): the source-text obligations C03_code_* are vacuous in this run, the behavioural tie decides" % note[0])
     else:
+        run.notes.append(("the choice of the 1-D resolution class in _interpret_data not translated (%s): C03_code_dispatch is vacuous" % DISPATCH_NOTE[0]) if DISPATCH_NOTE[0] else
+                         "the choice of the 1-D resolution class read from the current direct_model.py (Gen/C03_dispatch.v): a data set with at least one positive width is smeared (C03_code_dispatch, C03_positive_width_is_smeared)")
         run.notes.append("bin_edges, pinhole_resolution, _q_perp_weights and apply_resolution_matrix translated from the current resolution.py (Gen/C03_code.v, symbolic numpy evaluation) and proved equal to the model (C03_code_*)")
     cases, metas = [], []
     ecases, emetas = [], []
